@@ -43,6 +43,7 @@ type loopInfo struct {
 	lc       *LoopContract
 	phiFresh map[*ssa.Phi]T
 	entrySt  *State
+	fromTop  bool // invariant supplied by the contract of the function under verification
 }
 
 type modEntry struct {
@@ -87,6 +88,9 @@ type Frame struct {
 	curIdx   int
 	// inlined frames: which inline-loop invariants of the top contract were used
 	usedInlineLoops map[string]bool
+	// an inlined callee with loops was executed: this frame's exit condition is stronger than
+	// its entry condition
+	exitStrengthened bool
 }
 
 type closureVal struct {
@@ -214,6 +218,7 @@ func (f *Frame) analyzeLoops() {
 					continue
 				}
 				li.lc = lc
+				li.fromTop = true
 				if f.top.usedInlineLoops == nil {
 					f.top.usedInlineLoops = map[string]bool{}
 				}
@@ -247,6 +252,18 @@ func (f *Frame) analyzeLoops() {
 }
 
 func isBackEdge(from, to *ssa.BasicBlock) bool { return to.Dominates(from) }
+
+// loopLabel names a loop in obligation names: loops of inlined callees carry the callee's name.
+func (f *Frame) loopLabel(li *loopInfo) string {
+	if f != f.top {
+		n := fnDisplay(f.fn)
+		if i := strings.LastIndex(n, "."); i >= 0 {
+			n = n[i+1:]
+		}
+		return fmt.Sprintf("inl-%s-loop%d", n, li.ordinal)
+	}
+	return fmt.Sprintf("loop%d", li.ordinal)
+}
 
 // ---------------------------------------------------------------- values
 
@@ -404,6 +421,16 @@ func (f *Frame) specEnv(cur *State, at *ssa.BasicBlock, atIdx int, phiSubst map[
 			e.pkg = p.Pkg.Pkg
 		}
 	}
+	if li != nil && li.fromTop {
+		// invariant written in the contract of the function under verification
+		tf := f.top.fn
+		for tf.Pkg == nil && tf.Parent() != nil {
+			tf = tf.Parent()
+		}
+		if tf.Pkg != nil {
+			e.pkg = tf.Pkg.Pkg
+		}
+	}
 	for k, v := range f.params {
 		e.vars[k] = v
 	}
@@ -556,6 +583,28 @@ func (f *Frame) resolveLocal(name string, at *ssa.BasicBlock, atIdx int, phiSubs
 			best = c
 		}
 	}
+	// a variable captured by a closure lives in a heap cell (Alloc with the variable's name): its
+	// current content is the value, whatever the DebugRefs of its initialisation say
+	if at != nil {
+		var cell *ssa.Alloc
+		n := 0
+		for _, b := range f.fn.Blocks {
+			for _, ins := range b.Instrs {
+				if a, ok := ins.(*ssa.Alloc); ok && a.Heap && a.Comment == name && (b == at || b.Dominates(at)) {
+					if _, have := f.vals[a]; have {
+						cell = a
+						n++
+					}
+				}
+			}
+		}
+		if n == 1 {
+			if l := f.addrLoc(cell); l != nil {
+				return f.g.load(env.cur, l), true
+			}
+			return f.g.loadStruct(env.cur, f.val(cell).S, derefType(cell.Type())), true
+		}
+	}
 	for _, b := range f.fn.Blocks {
 		for _, ins := range b.Instrs {
 			switch x := ins.(type) {
@@ -576,6 +625,10 @@ func (f *Frame) resolveLocal(name string, at *ssa.BasicBlock, atIdx int, phiSubs
 	if best != nil {
 		if best.phi != nil {
 			return f.phiVal(best.phi, phiSubst), true
+		}
+		if a, ok := best.v.(*ssa.Alloc); ok && a.Comment == name {
+			// the storage of an escaping local variable (captured by a closure): its content
+			best.isAddr = true
 		}
 		if best.isAddr {
 			l := f.addrLoc(best.v)
@@ -785,6 +838,9 @@ func (f *Frame) inEdges(b *ssa.BasicBlock, includeBack bool) []inEdge {
 
 func (f *Frame) execBlock(b *ssa.BasicBlock, entrySt *State, entryReach string) {
 	g := f.g
+	if f == f.top && !f.specMode {
+		g.curTopBlock = b
+	}
 	bi := &BInfo{}
 	f.binfo[b] = bi
 	var edges []inEdge
@@ -874,6 +930,9 @@ func (f *Frame) execBlock(b *ssa.BasicBlock, entrySt *State, entryReach string) 
 			f.curPos = p
 		}
 		f.curBlock, f.curIdx = b, idx
+		if f == f.top && !f.specMode {
+			g.curTopBlock = b
+		}
 		f.instr(b, bi, idx, ins)
 	}
 	bi.done = true
@@ -889,22 +948,35 @@ func (f *Frame) loopHeader(b *ssa.BasicBlock, bi *BInfo, li *loopInfo, phiEntry 
 		g.note("loop %d of %s has no invariant: everything it may change is havocked", li.ordinal, fnDisplay(f.fn))
 		g.degrade("loop %d of %s has no invariant in the contract", li.ordinal, fnDisplay(f.fn))
 	}
+	// 0. ghost snapshots taken on entry (before the invariants, which may mention them)
+	if li.lc != nil && len(li.lc.GhostSets) > 0 {
+		env := f.specEnv(entry, b, 0, phiEntry, li)
+		f.applyGhostSets(&FuncContract{GhostSets: li.lc.GhostSets}, env, entry)
+		li.entrySt = entry.clone()
+	}
 	// 1. invariant on entry
 	if li.lc != nil {
 		env := f.specEnv(entry, b, 0, phiEntry, li)
+		for _, c := range li.lc.Invariants {
+			if strings.HasPrefix(c.Label, "assumed:") {
+				// an environment assumption (typically: no aliasing with storage owned by others)
+				// that holds throughout the loop; listed in the evidence, never checked
+				if v, err := env.evalBool(c.Expr); err == nil {
+					g.assumeNote("assumed loop invariant of %s [%s]: %s", fnDisplay(f.top.fn), c.Label, c.Text)
+					g.assert(sImp(bi.R, v.S))
+				}
+			}
+		}
 		for i, c := range li.lc.Invariants {
+			if strings.HasPrefix(c.Label, "assumed:") {
+				continue
+			}
 			v, err := env.evalBool(c.Expr)
 			if err != nil {
 				g.resolutionFailure(f, fmt.Sprintf("loop %d invariant %d: %v", li.ordinal, i+1, err))
 				continue
 			}
-			if strings.HasPrefix(c.Label, "assumed:") {
-				// an environment assumption (typically: no aliasing with storage owned by others)
-				// that holds throughout the loop; listed in the evidence, never checked
-				g.assumeNote("assumed loop invariant of %s [%s]: %s", fnDisplay(f.top.fn), c.Label, c.Text)
-				continue
-			}
-			f.addObl("inv-entry", fmt.Sprintf("loop%d/%s", li.ordinal, clauseLabel(c, i)), bi.R, v.S, c.Text)
+			f.addObl("inv-entry", fmt.Sprintf("%s/%s", f.loopLabel(li), clauseLabel(c, i)), bi.R, v.S, c.Text)
 		}
 	}
 	// 2. what does the body change? dry run of the loop body from the entry state
@@ -947,7 +1019,15 @@ func (f *Frame) loopHeader(b *ssa.BasicBlock, bi *BInfo, li *loopInfo, phiEntry 
 		}
 	}
 	li.phiFresh = map[*ssa.Phi]T{}
-	for p := range phiEntry {
+	for _, ins := range b.Instrs {
+		// (in instruction order: the generated text must not depend on map iteration order)
+		p, isPhi := ins.(*ssa.Phi)
+		if !isPhi {
+			break
+		}
+		if _, ok := phiEntry[p]; !ok {
+			continue
+		}
 		c := g.freshConst("phi:"+f.tag+":"+p.Name(), g.sortOf(p.Type()))
 		v := mk(c, g.sortOf(p.Type()), p.Type())
 		li.phiFresh[p] = v
@@ -1031,7 +1111,7 @@ func (f *Frame) loopModSet(h *ssa.BasicBlock, bi *BInfo, li *loopInfo, phiEntry 
 		if si.out.epoch != bi.in.epoch {
 			all = true
 		}
-		for name := range g.arrReg {
+		for _, name := range g.sortedArrNames() {
 			es := g.arrReg[name]
 			if g.arr(si.out, name, es) != g.arr(bi.in, name, es) && !seen[name] {
 				seen[name] = true
@@ -1130,6 +1210,6 @@ func (f *Frame) backEdge(from *ssa.BasicBlock, h *ssa.BasicBlock, cond string, s
 			g.resolutionFailure(f, fmt.Sprintf("loop %d invariant %d: %v", li.ordinal, i+1, err))
 			continue
 		}
-		f.addObl("inv-preserve", fmt.Sprintf("loop%d/%s", li.ordinal, clauseLabel(c, i)), cond, v.S, c.Text)
+		f.addObl("inv-preserve", fmt.Sprintf("%s/%s", f.loopLabel(li), clauseLabel(c, i)), cond, v.S, c.Text)
 	}
 }
